@@ -192,10 +192,12 @@ def compose(it, pre, lines):
 
 def resumable(ctx, test, inp, total):
     """Run a harness test that stops after a few hangs (their goroutines
-    leak) and is restarted where it stopped."""
+    leak) and is restarted where it stopped.  Every hang costs 2 s: after
+    `cap` of them the rest of the inputs is skipped (and that is recorded)."""
     recs_all, summaries = [], []
     start = inp.get('start', 0)
-    for _attempt in range(40):
+    cap = ctx.pick(12, 80)
+    for _attempt in range(60):
         inp['start'] = start
         recs, rc, out = ctx.run_harness(PKG, test, inp=inp, timeout=2400)
         summ = [x for x in recs if x.get('kind') == 'summary']
@@ -203,11 +205,17 @@ def resumable(ctx, test, inp, total):
             raise Infra('%s wrote no summary:\n%s' % (test, out[-2000:]))
         summaries.append(summ[0])
         recs_all += [x for x in recs if x.get('kind') != 'summary']
-        if summ[0]['next'] >= total:
-            return recs_all, summaries
-        if summ[0]['next'] <= start:
+        nxt = summ[0]['next']
+        if nxt >= total:
+            return recs_all, summaries, total
+        if nxt <= start:
             raise Infra('%s made no progress at %d' % (test, start))
-        start = summ[0]['next']
+        start = nxt
+        nh = len([x for x in recs_all if x.get('kind') == 'obs' and x['out']['kind'] == 'hang'])
+        if nh >= cap:
+            ctx.warn('%s: %d calls did not return; inputs %d..%d skipped' % (test, nh, start, total - 1))
+            ctx.cov.setdefault('skipped_after_hangs', {})[test] = total - start
+            return recs_all, summaries, start
     raise Infra('%s: too many restarts' % test)
 
 
@@ -221,7 +229,7 @@ def validate_obs(ctx, obs, label):
         part = obs[i:i + chunk]
         lines = [{'f': o['f'], 'out': o['out']} for o in part]
         r = ctx.tlc('FileFormatParseTrace', files={'c06obs.ndjson': ndjson_text(lines)}, workers=1, dump=True,
-                    label='%s[%d]' % (label, i // chunk), count=False)
+                    label='%s[%d]' % (label, i // chunk), count=False, stack='512m')     # chains of garbage files are walked recursively
         if not r.ok:
             raise Infra('FileFormatParseTrace: %s\n%s' % (r.error, r.out[-3000:]))
         n = 0
@@ -339,7 +347,7 @@ def run(ctx):
     ctx.sample({'kind': 'vector', 'cls': wf[len(wf) // 2]['cls'], 'vec': wf[len(wf) // 2]['vec'], 'expected_counts': wf[len(wf) // 2]['counts']})
     inp = {'names': [n['hex'] for n in names], 'decoded': [decoded[n['n']].hex() for n in names], 'metas': [m.encode('latin-1').hex() for m in metas],
            'meta_sets': meta_sets, 'vectors': vectors, 'start': 0, 'obs_every': ctx.pick(7, 9), 'via_file': ctx.pick(5, 3)}
-    recs, summaries = resumable(ctx, 'TestVerifC06Vec', inp, len(vectors))
+    recs, summaries, _done = resumable(ctx, 'TestVerifC06Vec', inp, len(vectors))
     for x in recs:
         if x.get('kind') == 'infra':
             raise Infra('C06: %s' % json.dumps(x)[:1500])
@@ -370,9 +378,9 @@ def run(ctx):
 
     # ---- 2. code -> model: random and mutated byte strings ------------------
     total = ctx.pick(5000, 100000)
-    recs, summaries = resumable(ctx, 'TestVerifC06Fuzz', {'start': 0, 'end': total}, total)
+    recs, summaries, done = resumable(ctx, 'TestVerifC06Fuzz', {'start': 0, 'end': total}, total)
     fobs = [x for x in recs if x.get('kind') == 'obs']
-    if len(fobs) != total:
+    if len(fobs) != done:
         raise Infra('C06: %d of %d fuzz observations' % (len(fobs), total))
     kinds = {}
     for s in summaries:
